@@ -475,7 +475,7 @@ NB_OPS_DUPID = NB_OPS + ["dup_same_id"]
 
 
 @st.composite
-def edit_notebook(draw, nb, tag, max_steps=4, ops=None, min_steps=0):
+def edit_notebook(draw, nb, tag, max_steps=4, ops=None, min_steps=0, cell_kinds=None):
     nb = copy.deepcopy(nb)
     cells = nb["cells"]
     used = _ids(nb)
@@ -499,7 +499,7 @@ def edit_notebook(draw, nb, tag, max_steps=4, ops=None, min_steps=0):
             cells.insert(draw(st.integers(0, len(cells))), c)
         elif op == "edit":
             i = draw(st.integers(0, len(cells) - 1))
-            cells[i] = draw(edit_cell(cells[i], minor))
+            cells[i] = draw(edit_cell(cells[i], minor, cell_kinds))
         elif op == "del":
             del cells[draw(st.integers(0, len(cells) - 1))]
         elif op == "move":
